@@ -9,6 +9,7 @@ with the transcription executed on floats.
 """
 from __future__ import annotations
 
+import itertools
 import json
 import math
 
@@ -16,7 +17,7 @@ import numpy as np
 
 from harness import common, gen
 
-MODULES = ['CirqVerif.Props.C03', 'CirqVerif.Obligations.C03']
+MODULES = ['CirqVerif.Props.C03', 'CirqVerif.Props.C03b', 'CirqVerif.Obligations.C03']
 
 
 def families(cirq, cirq_google, cirq_ionq):
@@ -118,7 +119,7 @@ def run(ctx: common.Run):
         'Lean Float sin/cos/sqrt/exp evaluate the elementary functions (execution vehicle for the comparison only)',
     ]
     extract_eigen(ctx, cirq)
-    ok, failing = ctx.lean(['CirqVerif.Props.C03'] + ctx.obligation_modules)
+    ok, failing = ctx.lean(['CirqVerif.Props.C03', 'CirqVerif.Props.C03b'] + ctx.obligation_modules)
     if not ok:
         search_eigen_failure(ctx, cirq, failing)
         return
@@ -182,6 +183,128 @@ def run(ctx: common.Run):
                 f'kraus:{name}', f'cirq.kraus({name}) is not the documented channel',
                 {'lines': [{'channel': repr(ch), 'params': ps}], 'impl_out': [repr([np.round(k, 9).tolist() for k in got])],
                  'spec_out': [repr([np.round(k, 9).tolist() for k in want])], 'theorem_or_correspondence': f'GateDocs.{name}'})
+    check_sized_families(ctx, cirq, n)
+
+
+def superop(ks):
+    return sum(np.kron(k, k.conj()) for k in ks)
+
+
+def bool_counts(names, exprs):
+    """number of expressions true at every assignment (big-endian), evaluated by Python on 0/1 integers: `~x` is `1 - x`"""
+    out = []
+    n = len(names)
+    for x in range(2**n):
+        env = {nm: (x >> (n - 1 - i)) & 1 for i, nm in enumerate(names)}
+        out.append(sum(int(eval(e.replace('~', '1-'), {'__builtins__': {}}, env)) & 1 for e in exprs))
+    return out
+
+
+def check_sized_families(ctx, cirq, n):
+    """families whose size is a parameter (GateDocs2): qudit X / Z powers, QFT, phase gradient, qubit permutations, Boolean
+    Hamiltonians, helper constructors; n-qubit depolarizing, Pauli-string mixtures, qudit reset, measurement, random gates"""
+    rng = ctx.substream('sized')
+    reqs, meta = [], []
+
+    def add(name, ints, params, gate, phase_free=False, **extra):
+        reqs.append(dict({'p': 'C03', 'op': 'gate2', 'name': name, 'ints': ints, 'params': [common.f2b(float(x)) for x in params]}, **extra))
+        meta.append(('gate', name, ints, params, gate, phase_free))
+
+    def addk(name, ints, params, ch, **extra):
+        reqs.append(dict({'p': 'C03', 'op': 'kraus2', 'name': name, 'ints': ints, 'params': [common.f2b(float(x)) for x in params]}, **extra))
+        meta.append(('kraus', name, ints, params, ch, False))
+
+    for d in (2, 3, 4, 5, 7):
+        for _ in range(max(3, n // 6)):
+            t, s = float(gen.rand_exponent(rng)), float(gen.rand_shift(rng))
+            add('qudit_z', [d], [t, s], cirq.ZPowGate(exponent=t, global_shift=s, dimension=d))
+            add('qudit_x', [d], [t, s], cirq.XPowGate(exponent=t, global_shift=s, dimension=d))
+            if rng.random() < 0.5:  # powers of a power
+                u = float(rng.choice([0.5, 2, -1, 3, 1 / 3]))
+                add('qudit_z', [d], [t * u, s], cirq.ZPowGate(exponent=t, global_shift=s, dimension=d) ** u)
+                add('qudit_x', [d], [t * u, s], cirq.XPowGate(exponent=t, global_shift=s, dimension=d) ** u)
+    for k in (1, 2, 3, 4):
+        for wr in (False, True):
+            add('qft', [k, int(wr)], [], cirq.QuantumFourierTransformGate(k, without_reverse=wr))
+            add('qft', [k, int(wr)], [], cirq.qft(*cirq.LineQubit.range(k), without_reverse=wr).gate)
+        for _ in range(3):
+            t = float(gen.rand_exponent(rng))
+            add('phase_gradient', [k], [t], cirq.PhaseGradientGate(num_qubits=k, exponent=t))
+            add('phase_gradient', [k], [t * 0.5], cirq.PhaseGradientGate(num_qubits=k, exponent=t) ** 0.5)
+    for k in (1, 2, 3, 4):
+        for _ in range(4):
+            perm = list(range(k))
+            rng.shuffle(perm)
+            add('qubit_permutation', perm, [], cirq.QubitPermutationGate(perm))
+    pool = ['a', 'b', 'a & b', 'a ^ b', 'a | b', '~a', '~a & b', 'a ^ b ^ c', '(a | b) & c', '~(a & c)', 'c', 'b & c', 'a & ~c']
+    for _ in range(max(6, n // 3)):
+        names = ['a', 'b', 'c'][: rng.choice([2, 3])]
+        exprs = [e for e in rng.sample(pool, rng.randint(1, 3)) if 'c' not in e or 'c' in names]
+        if not exprs:
+            continue
+        th = float(rng.choice([0.7, -1.3, math.pi, 2 * math.pi, rng.uniform(-7, 7)]))
+        add('boolean_hamiltonian', bool_counts(names, exprs), [th], cirq.BooleanHamiltonianGate(names, exprs, th), phase_free=True)
+    for _ in range(max(4, n // 4)):
+        r = gen_param(rng, 'rad')
+        add('givens', [], [r], cirq.givens(r))
+        add('riswap', [], [r], cirq.riswap(r))
+        add('cphase', [], [r], cirq.cphase(r))
+    # channels
+    for k in (1, 2, 3):
+        for _ in range(3):
+            pr = float(rng.choice([0, 0.1, 0.5, rng.random() * (1 - 4.0 ** -k)]))
+            addk('depolarize', [k], [pr], cirq.depolarize(pr, n_qubits=k))
+    for d in (2, 3, 4):
+        addk('reset', [d], [], cirq.ResetChannel(dimension=d))
+        addk('measure', [d], [], cirq.MeasurementGate(1, key='m', qid_shape=(d,)))
+    addk('measure', [6], [], cirq.MeasurementGate(2, key='m', qid_shape=(2, 3)))
+    addk('measure', [4], [], cirq.MeasurementGate(2, key='m'))
+    for _ in range(max(3, n // 8)):
+        k = rng.choice([1, 2, 2, 3])
+        strs = rng.sample([''.join(x) for x in itertools.product('IXYZ', repeat=k)], rng.randint(1, min(5, 4**k)))
+        w = [rng.random() + 0.05 for _ in strs]
+        probs = [x / sum(w) for x in w]
+        addk('pauli_mixture', [], probs, cirq.asymmetric_depolarize(error_probabilities=dict(zip(strs, probs))), strings=[['IXYZ'.index(c) for c in st] for st in strs])
+    subs = [cirq.X, cirq.Z ** 0.3, cirq.CNOT, cirq.XPowGate(dimension=3), cirq.ZPowGate(dimension=3) ** 0.5, cirq.XPowGate(dimension=4) ** 0.5, cirq.MatrixGate(gen.rand_unitary(rng, 6), qid_shape=(2, 3)),
+            cirq.bit_flip(0.2), cirq.amplitude_damp(0.3), cirq.ResetChannel(dimension=3), cirq.depolarize(0.1, n_qubits=2), cirq.X.with_probability(0.3), cirq.XPowGate(dimension=3).with_probability(0.6)]
+    for sub in subs:
+        for _ in range(2):
+            pr = float(rng.choice([0.25, 0.5, 1.0, 0.0, rng.random()]))
+            inner = sub.sub_gate if isinstance(sub, cirq.RandomGateChannel) else sub
+            eff = pr * float(sub.probability) if isinstance(sub, cirq.RandomGateChannel) else pr
+            sk = [np.asarray(m) for m in cirq.kraus(inner)]
+            addk('random_gate', [int(np.prod(cirq.qid_shape(inner)))], [eff], sub.with_probability(pr), sub=[[[common.c2j(z) for z in row] for row in m] for m in sk])
+    outs = ctx.driver.ask(reqs)
+    for (kind, name, ints, params, obj, phase_free), out in zip(meta, outs):
+        ctx.count('family', ('channel:' if kind == 'kraus' else '') + name)
+        ctx.case(['sized', kind, name, ints, params], True)
+        rep = {'lines': [{'gate': repr(obj)[:400], 'family': name, 'ints': ints, 'params': params}], 'theorem_or_correspondence': f'GateDocs2.{name}'}
+        if kind == 'gate':
+            want = mat(out)
+            got = cirq.unitary(obj)
+            ok = got.shape == want.shape
+            if ok and phase_free:
+                i = int(np.argmax(np.abs(want.reshape(-1))))
+                ph = got.reshape(-1)[i] / want.reshape(-1)[i]
+                ok = abs(abs(ph) - 1) < 1e-8 and np.allclose(got, ph * want, atol=1e-8)
+            elif ok:
+                ok = np.allclose(got, want, atol=1e-8, rtol=0)
+            if ok and cirq.qid_shape(obj) and int(np.prod(cirq.qid_shape(obj))) != want.shape[0]:
+                ok = False
+            if not ok:
+                ctx.report_witness(f'unitary:{name}', f'cirq.unitary of a {name} gate differs from the documented matrix' + (' (up to global phase)' if phase_free else ''),
+                                   dict(rep, impl_out=[repr(np.round(got, 9).tolist())[:1500]], spec_out=[repr(np.round(want, 9).tolist())[:1500]]))
+        else:
+            want = [mat(m) for m in out]
+            got = [np.asarray(k) for k in cirq.kraus(obj)]
+            dim = want[0].shape[0]
+            ok = all(k.shape == (dim, dim) for k in got) and np.allclose(superop(got), superop(want), atol=1e-8) and np.allclose(sum(k.conj().T @ k for k in got), np.eye(dim), atol=1e-8)
+            if ok and cirq.has_mixture(obj) and name != 'measure':
+                mix = cirq.mixture(obj)
+                ok = all(np.asarray(u).shape == (dim, dim) for _, u in mix) and np.allclose(sum(pw * np.kron(np.asarray(u), np.asarray(u).conj()) for pw, u in mix), superop(want), atol=1e-8) and abs(sum(pw for pw, _ in mix) - 1) < 1e-9
+            if not ok:
+                ctx.report_witness(f'kraus:{name}', f'cirq.kraus / cirq.mixture of a {name} channel is not the documented channel',
+                                   dict(rep, impl_out=[repr([np.round(k, 6).tolist() for k in got])[:1500]], spec_out=[repr([np.round(k, 6).tolist() for k in want])[:1500]]))
 
 
 # ------------------------------------------------------------------------------ T3: eigen-components
